@@ -63,15 +63,22 @@ def apply_write(dest, off, data):
     dest[off:off + len(data)] = data
 
 
-def putfo_impl(mrs, chunks, confirm, env, open_rp, close_rp, stat, callback, file_size=0):
-    """Run the real putfo; returns (outcome, dest bytes)."""
+def putfo_impl(mrs, chunks, confirm, env, open_rp, close_rp, stat, callback, file_size=0, death=None):
+    """Run the real putfo; returns (outcome, dest bytes).  death = (mode, k): the server goes away when the
+    k-th request after OPEN arrives (writes, then CLOSE, then STAT) - that request is neither processed nor
+    answered; mode "eof": later sends still succeed, reads hit end of stream; "sendfail": sends raise too."""
     from paramiko.sftp_file import SFTPFile
     env = list(env)
     dest = bytearray()
-    box = {}
+    box = {"n": 0}
 
     def server(t, payload):
         num = struct.unpack(">I", payload[:4])[0]
+        if death is not None and t != 3:
+            if box["n"] == death[1]:
+                box["sock"].dead = death[0]
+                return []
+            box["n"] += 1
         if t == 3:
             del dest[:]
             return [c30.reply_packet(open_rp[0], num, open_rp[1])]
@@ -141,6 +148,43 @@ def gen_putfo_case(rng):
     fs = rng.choice([0, 0, total, total, max(0, total - 1), total // 2, 1, total + 7, len(chunks[0]) if chunks else 3])
     return dict(mrs=mrs, chunks=chunks, confirm=rng.random() < 0.5, env=env, open_rp=open_rp, close_rp=close_rp,
                 stat=stat, callback=rng.random() < 0.5, file_size=fs)
+
+
+DEATH_SEND_KF = "close-swallows-send-failure:_close-ignores-socket-error"
+
+
+def death_part(ctx, n):
+    """putfo to a server that dies at EVERY point of the transfer: at each write, after the last write (when
+    CLOSE arrives), and when the confirming STAT arrives; confirm on/off; both ways a dead connection shows."""
+    rng = ctx.rng
+    for j in range(n):
+        mrs = rng.choice([2, 4, 8])
+        chunks = [bytes(rng.randrange(1, 256) for _ in range(rng.randrange(1, 13))) for _ in range(rng.randrange(1, 5))]
+        nwrites = sum((len(c) + mrs - 1) // mrs for c in chunks)
+        src = b"".join(chunks)
+        for k in range(nwrites + 2):
+            for mode in ("eof", "sendfail"):
+                for confirm in (False, True):
+                    out, dst, _ = putfo_impl(mrs, chunks, confirm, [], (102, 0), (101, 0), None, False, 0, (mode, k))
+                    where = "write %d of %d" % (k, nwrites) if k < nwrites else ("close" if k == nwrites else "stat")
+                    case = {"mrs": mrs, "chunks": chunks, "confirm": confirm, "server_dies_at_request": k,
+                            "which_is": where, "mode": mode}
+                    ctx.count(("death", repr(case)), kind="scripted-putfo:server-dies:" + mode)
+                    if out == 98:
+                        ctx.fail("putfo-blocks-after-connection-loss", "putfo waits for a packet from a dead server",
+                                 case=case)
+                    elif out == 0 and dst != src:
+                        if mode == "sendfail":
+                            # the failing send of CMD_CLOSE itself is swallowed by _close (registered known finding)
+                            ctx.fail(DEATH_SEND_KF, "putfo returned normally although the connection died before the "
+                                     "last writes were stored", case=case,
+                                     observed={"dest_len": len(dst), "src_len": len(src)})
+                        else:
+                            ctx.fail("upload-returns-after-connection-loss:" + ("confirm" if confirm else "no-confirm"),
+                                     "putfo returned normally although the server went away at %s: the remote file "
+                                     "has %d of %d bytes and the wait for the close reply saw the connection drop"
+                                     % (where, len(dst), len(src)), case=case, expected="raise",
+                                     observed={"dest_len": len(dst), "src_len": len(src)})
 
 
 def coq_putfo_case(k):
@@ -498,6 +542,99 @@ def live_part(ctx, sizes, codes, wd):
         shutil.rmtree(local, ignore_errors=True)
 
 
+class RendezvousLock:
+    """Stands in for SFTPClient._lock (mutual exclusion unchanged): a thread that is about to take the lock
+    inside _async_request first waits up to `wait` seconds for a second thread to arrive at the same point, so
+    that the prefetch thread and the reader enter _async_request together.  Harmless when everything that
+    reads or writes request_number happens under the lock."""
+
+    def __init__(self, wait=0.03):
+        import threading
+        self.real = threading.Lock()
+        self.cv = threading.Condition()
+        self.waiting = 0
+        self.pairs = 0
+        self.wait = wait
+
+    def acquire(self, *a, **k):
+        import sys
+        if sys._getframe(1).f_code.co_name == "_async_request":
+            with self.cv:
+                self.waiting += 1
+                if self.waiting >= 2:
+                    self.pairs += 1
+                    self.cv.notify_all()
+                else:
+                    self.cv.wait(self.wait)
+                self.waiting -= 1
+        return self.real.acquire(*a, **k)
+
+    def release(self):
+        self.real.release()
+
+    def __enter__(self):
+        self.real.acquire()
+        return self
+
+    def __exit__(self, *a):
+        self.real.release()
+
+
+def concurrent_requests_part(ctx, wd, sizes):
+    """get / getfo with a prefetch cap: the reader falls back to its own READs while the prefetch thread is
+    still queueing; both threads are made to enter _async_request together (RendezvousLock).  The bytes must
+    be exact or the call must raise - and it must end."""
+    import threading
+    rng = ctx.rng
+    old_hook = threading.excepthook
+    threading.excepthook = lambda args: None
+    sess = None
+    try:
+        for size in sizes:
+            src = bytes(rng.getrandbits(8) for _ in range(size))
+            for mc in (1, 2, 3):
+                use_get = rng.random() < 0.5
+                case = {"op": "get" if use_get else "getfo", "size": size, "prefetch": True, "max_concurrent": mc,
+                        "threads_enter__async_request_together": True}
+                ctx.count(("concurrent", repr(case)), kind="live-download:concurrent-requests")
+                res = None
+                for attempt in range(2):
+                    sess = alive_session(ctx, sess)
+                    with open(os.path.join(sess.root, "down.bin"), "wb") as fh:
+                        fh.write(src)
+                    lock = RendezvousLock()
+                    sess.sftp._lock = lock
+                    buf = io.BytesIO()
+                    ldst = os.path.join(sess.root, "local-copy.bin")
+
+                    def go():
+                        if use_get:
+                            sess.sftp.get("/down.bin", ldst, None, True, mc)
+                            with open(ldst, "rb") as fh:
+                                return fh.read()
+                        sess.sftp.getfo("/down.bin", buf, None, True, mc)
+                        return buf.getvalue()
+
+                    res = with_watchdog(go, wd)
+                    case["rendezvous_pairs"] = lock.pairs
+                    if res[0] != "hang":
+                        break
+                st, v = res
+                if st == "hang":
+                    ctx.fail("download-hangs:concurrent-requests", "%s neither returned nor raised (watchdog, twice) "
+                             "when the prefetch thread and the reader issued requests at the same moment" % case["op"],
+                             case=case, expected="exact bytes or an exception")
+                elif st == "ok" and v != src:
+                    ctx.fail("download-inexact:concurrent-requests", "%s returned normally with bytes that are not the "
+                             "remote file's when the prefetch thread and the reader issued requests at the same moment"
+                             % case["op"], case=case, expected={"len": len(src)},
+                             observed={"len": len(v), "first_diff": first_diff(src, v)})
+    finally:
+        threading.excepthook = old_hook
+        if sess is not None:
+            sess.close()
+
+
 class SlowReader:
     """A source that hands out small pieces and pauses now and then, so that write replies arrive while
     the upload is still going on (recv_ready() becomes true)."""
@@ -661,7 +798,10 @@ def run(ctx):
                 "1000-byte writes with one early write rejected; downloads of 100 KB..1 MiB during which the server "
                 "side of the session goes away at the first / second / middle / last read, prefetch uncapped, capped "
                 "and off; putfo with a declared file_size of 0 / under / exact / over (scripted and live); downloads of "
-                "files that grow or shrink between get/getfo's stat and its reads.  Non-trivial = distinct and non-empty.")
+                "files that grow or shrink between get/getfo's stat and its reads; putfo to a scripted server that dies "
+                "at every request of the transfer (each write, close, stat), sends failing or reads hitting EOF, "
+                "confirm on/off; capped-prefetch downloads with the prefetch thread and the reader made to enter "
+                "_async_request together.  Non-trivial = distinct and non-empty.")
     ctx.trusted += ["models coq/Model/C29.v and C30.v are hand-written; tied to sftp_client.py / sftp_file.py / file.py "
                     "by this differential run (vm_compute of the model's own definitions)",
                     "download path covered by the implementation-level oracle only"]
@@ -692,9 +832,12 @@ def run(ctx):
     import time
     import traceback
     for name, fn in (("scripted", lambda: scripted_part(ctx, 900 if ctx.thorough else 150)),
+                     ("server-dies", lambda: death_part(ctx, 12 if ctx.thorough else 3)),
                      ("live", lambda: live_part(ctx, sizes, codes, 30.0)),
                      ("many-writes", lambda: many_writes_part(ctx, 30.0, 6 if ctx.thorough else 3)),
-                     ("connection-loss", lambda: drop_part(ctx, drops, 20.0))):
+                     ("connection-loss", lambda: drop_part(ctx, drops, 20.0)),
+                     ("concurrent-requests", lambda: concurrent_requests_part(
+                         ctx, 15.0, [200000, 400000] if ctx.thorough else [200000]))):
         t0 = time.time()
         try:
             fn()
